@@ -206,11 +206,39 @@ struct Replacement {
 /// it exists so that loading always terminates.
 const MAX_EXPANSIONS: u32 = 100_000;
 
+/// Identifies a list by where it was written.
+type ListOrigin = (usize, usize, std::rc::Rc<str>);
+
+/// A template that is in the middle of being expanded.
+struct ActiveExpansion<'a> {
+    name: &'a str,
+    /// The lists that were passed as parameters of this expansion.
+    /// These are substituted into the template content
+    /// but were written where the template is expanded, not in the template itself.
+    param_lists: Vec<ListOrigin>,
+}
+
 #[derive(Default)]
 struct ExpansionTracker<'a> {
-    /// Names of the templates that are in the middle of being expanded.
-    active: Vec<&'a str>,
+    active: Vec<ActiveExpansion<'a>>,
     total_expansions: u32,
+}
+
+fn list_origin(l: &Spanned<Vec<SExpr>>) -> ListOrigin {
+    (
+        l.span.start.absolute,
+        l.span.end.absolute,
+        l.span.file_name.clone(),
+    )
+}
+
+fn collect_list_origins(exprs: &[SExpr], origins: &mut Vec<ListOrigin>) {
+    for expr in exprs {
+        if let SExpr::List(l) = expr {
+            origins.push(list_origin(l));
+            collect_list_origins(&l.t, origins);
+        }
+    }
 }
 
 fn expand(exprs: &mut Vec<SExpr>, templates: &[Template], lsp_hints: &mut LspHints) -> Result<()> {
@@ -275,7 +303,19 @@ fn expand_tracked<'a>(
                     // The check of names in deftemplate ensures that a template only expands
                     // templates that are defined earlier, but only for expansions written
                     // literally. An expansion can also be formed through variable substitution.
-                    if tracker.active.contains(&template.name.as_str()) {
+                    //
+                    // A list that was passed as a parameter does not belong to the templates
+                    // it was passed into, e.g. the inner expansion in (t! x (t! x a)).
+                    let origin = list_origin(l);
+                    let enclosing = tracker
+                        .active
+                        .iter()
+                        .position(|a| a.param_lists.contains(&origin))
+                        .unwrap_or(tracker.active.len());
+                    if tracker.active[..enclosing]
+                        .iter()
+                        .any(|a| a.name == template.name)
+                    {
                         bail_span!(
                             l,
                             "template {} is expanded within its own expansion.\nRecursive template expansion is not allowed.",
@@ -333,7 +373,12 @@ fn expand_tracked<'a>(
 
                     // Expand what the template itself expands while this template is marked as
                     // being expanded.
-                    tracker.active.push(&template.name);
+                    let mut param_lists = vec![];
+                    collect_list_origins(&l.t[2..], &mut param_lists);
+                    tracker.active.push(ActiveExpansion {
+                        name: &template.name,
+                        param_lists,
+                    });
                     let nested_result =
                         expand_tracked(&mut expanded_template, templates, _lsp_hints, tracker);
                     tracker.active.pop();
